@@ -24,7 +24,9 @@ class C11(P.Property):
     technique = ("deterministic simulation: seeded histories of client operations (fresh client object per step, live simulated server) "
                  "against a 5-flag reference model, files compared after every step")
     level_text = ("seeded exploration of client-operation histories (4-16 operations, legal and out-of-order, valid and invalid "
-                  "configurations, all nine schemes) against a reference model; files under ~/.sse/client compared after every step")
+                  "configurations, create from the stored configuration, service deleted on the server, all nine schemes, gc points, one "
+                  "optional 70 s reply stall) against a reference model that tracks the client's five flags, the server's state and the "
+                  "local index; files under ~/.sse/client compared after every step")
     level_note = ("trusted: reference model/interpreter in props/c11.py, the simulator; a refusal is any raised exception; an encrypt/search "
                   "failure that the direct scheme call reproduces counts as a refusal by the scheme, not as a workflow error")
     rule = ("history = 4..16 client operations biased 55/45 between the legal next step and an arbitrary one, each on a freshly "
